@@ -57,6 +57,7 @@ func execHistory(c *core.Ctx, sb *sandbox, h hcase, prop string) ([]core.Violati
 	st := newState()
 	var vs []core.Violation
 	edited := false
+	spokfileEdited := false
 	sawForcedUp := false
 	shape := h.Shape
 	sb.materialise(shape, st)
@@ -69,6 +70,7 @@ func execHistory(c *core.Ctx, sb *sandbox, h hcase, prop string) ([]core.Violati
 				shape = h.Alts[k]
 			}
 			edited = true
+			spokfileEdited = true
 			continue
 		}
 		if op.Kind != "run" {
@@ -85,7 +87,10 @@ func execHistory(c *core.Ctx, sb *sandbox, h hcase, prop string) ([]core.Violati
 		}
 		pre := st.clone()
 		sb.readBack(shape, &st)
-		vd := judgeRun(shape, pre, o, &st, true)
+		// once the spokfile itself has been edited only "never skipped wrongly" is judged: a changed
+		// dependency declaration may name the same set of files in a different way (a file listed
+		// twice), and whether that still counts as "unchanged" is not stated (cf. duplicates in C04)
+		vd := judgeRun(shape, pre, o, &st, !spokfileEdited)
 		stats.Runs++
 		stats.Skips += vd.Skips
 		stats.Reruns += vd.Reruns
